@@ -316,3 +316,69 @@ Definition c12_class_code (k : kcase) : N :=
   | KC 2 _ _ => 79
   | KC _ _ _ => 0
   end.
+
+(* ------------------------------------------------------------------------------------------------ orders (C02) *)
+(* the same registered values, the rule set walked in two different orders: everything must be identical *)
+Inductive rocase := RO (a b : ucase).
+
+Definition table_eq (t1 t2 : list (tyvar * list te)) : bool :=
+  Nat.eqb (length t1) (length t2) &&
+  forallb (fun p => match assoc_tv t2 (fst p) with Some es => set_eq_te (snd p) es | None => false end) t1.
+
+Definition check_rule_order (c : rocase) : N :=
+  match c with
+  | RO (UC _ _ (UR c1 t1)) (UC _ _ (UR c2 t2)) => if (c1 =? c2) && table_eq t1 t2 then 0 else 16
+  | RO (UC _ _ UPanic) _ | RO _ (UC _ _ UPanic) => 12
+  | _ => 11
+  end.
+
+(* the values registered and typed in two orders: the judgement tables must be renamings of each other.  The
+   renaming is built from the model's typed trees (registered variables) and from the order in which the mapping
+   rule allocates (fresh variables), then checked on the implementation's tables. *)
+Inductive oucase := OU (inputs : list sv) (perm : list nat) (res1 res2 : ures).
+
+Definition rename_span_c (rho : tyvar -> tyvar) (s : span) : span := mk_span (rho (s_typ s)) (s_off s) (s_sz s).
+Definition rename_te_c (rho : tyvar -> tyvar) (e : te) : te :=
+  match e with
+  | Equal id => Equal (rho id)
+  | FixedArray x l => FixedArray (rho x) l
+  | Mapping k v => Mapping (rho k) (rho v)
+  | DynamicArray x => DynamicArray (rho x)
+  | Packed ts b => Packed (map (rename_span_c rho) ts) b
+  | e => e
+  end.
+
+Definition allocates (x : tsv) : bool := match mapping_access_rule x 0 with Ok ro => ro_alloc ro | _ => false end.
+
+Fixpoint index_of_var (w : tyvar) (l : list tyvar) : option nat :=
+  match l with [] => None | v :: r => if v =? w then Some O else option_map S (index_of_var w r) end.
+
+Definition assoc_or_id (l : list (tyvar * tyvar)) (w : tyvar) : tyvar := match assoc_tv l w with Some w' => w' | None => w end.
+
+Definition check_rules_perm (c : oucase) : N :=
+  match c with
+  | OU inputs perm (UR c1 t1) (UR c2 t2) =>
+      let vs' := map (fun i => nth i inputs (Node T_Value [0] [])) perm in
+      let '(ts, st) := assign_vars inputs in
+      let '(ts', st') := assign_vars vs' in
+      let roots1 := map (fun i => nth i (map vtree ts) (VT 0 [])) perm in
+      let reg_pairs := flat_map (fun p => vt_pairs (fst p) (snd p)) (combine roots1 (map vtree ts')) in
+      let rho := assoc_or_id reg_pairs in
+      let n := next st in
+      let al := map tv_of (filter allocates (values st)) in
+      let al' := map tv_of (filter allocates (values st')) in
+      let fresh_pairs := flat_map (fun iv : nat * tyvar =>
+                                     match index_of_var (rho (snd iv)) al' with
+                                     | Some j => [(n + N.of_nat (fst iv), n + N.of_nat j)]
+                                     | None => []
+                                     end) (combine (seq 0 (length al)) al) in
+      let rho_plus := assoc_or_id (reg_pairs ++ fresh_pairs) in
+      if negb (c1 =? c2) then 17
+      else if negb (Nat.eqb (length t1) (length t2)) then 17
+      else if forallb (fun p => match assoc_tv t2 (rho_plus (fst p)) with
+                                | Some es => set_eq_te (map (rename_te_c rho_plus) (snd p)) es
+                                | None => false
+                                end) t1 then 0 else 17
+  | OU _ _ UPanic _ | OU _ _ _ UPanic => 12
+  | _ => 11
+  end.
